@@ -36,7 +36,9 @@
    them: m2(ctx, a, b) echoes; sub(ctx, key, tag) registers subscription `key` on this connection
    and starts a goroutine that writes numbered notifications through the Conn until it is
    cancelled (unsub) or Conn.Context() is done; unsub(ctx, key, tag) cancels it, WAITS for the
-   goroutine to end and then answers true (rpc/v10 Unsubscribe does the same). *)
+   goroutine to end and then answers true (rpc/v10 Unsubscribe does the same); boom(ctx, n, tag)
+   returns a value encoding/json cannot serialise (error text short for n = 1, longer than a close
+   frame's reason for n = 2): HandleReader fails, ServeHTTP ends the connection with 1011. *)
 EXTENDS Naturals, Integers, Sequences, FiniteSets, TLC
 
 CONSTANTS
@@ -51,7 +53,9 @@ CONSTANTS
   SplitWrites,     \* a write is two steps (head, tail) instead of one
   WriteMutex,      \* TRUE: writers exclude each other for a whole frame (coder/websocket)
   WaitActivation,  \* TRUE: connection.Write waits for the initial response (code as it is)
-  FixNonRequest    \* FALSE: code as it is (C11 known finding)
+  FixNonRequest,   \* FALSE: code as it is (C11 known finding)
+  FixCloseReason   \* FALSE: code as it is: ServeHTTP cuts the close reason at 125 bytes, a close frame
+                   \* carries at most 123: with a longer error text NO close frame is sent (finding of G04)
 
 Subs    == 1..MaxSubs
 Idx     == 1..MaxEntries
@@ -59,7 +63,7 @@ Writers == 0..MaxSubs            \* 0 = the connection loop, k = goroutine of su
 
 (* the method table of the replayer: every method takes the context and two required params *)
 WsMethods ==
-  [m \in {"m2", "sub", "unsub"} |->
+  [m \in {"m2", "sub", "unsub", "boom"} |->
      [ctx |-> TRUE, params |-> <<[name |-> "a", opt |-> FALSE], [name |-> "b", opt |-> FALSE]>>]]
 
 JR == INSTANCE JsonRpc WITH
@@ -85,6 +89,8 @@ Invokes(e) == ~JR!DecodeErr(e) /\ JR!HandleRequest(1, e).inv # JR!NoInv
 IsSub(e)   == Invokes(e) /\ e.meth = "sub"
 IsUnsub(e) == Invokes(e) /\ e.meth = "unsub"
 KeyOf(e)   == IF JR!HandleRequest(1, e).inv.args[1] = "p" THEN 1 ELSE 2
+(* the answer to e cannot be serialised (a notification's result is never looked at) *)
+IsBoom(e)  == Invokes(e) /\ e.meth = "boom" /\ JR!HasId(e)
 
 (* wire contents, one record shape for TLC *)
 NoFrame == [t |-> "none", f |-> 0, k |-> 0, n |-> 0, code |-> 0, shape |-> "-", body |-> <<>>]
@@ -268,6 +274,8 @@ FinishCancelled(i) ==
                  failedf, client, cseen, srv, shut, ctxc>>
 
 AllFinished == \A i \in Idx : est[i] \in {"idle", "finished"}
+BoomIn(fr)  == fr.k = "single" /\ IsBoom(fr.es[1])
+LongReason(fr) == BoomIn(fr) /\ KeyOf(fr.es[1]) = 2
 CurShape == IF sent[cur].k = "batch" /\ sent[cur].es # <<>> THEN "array" ELSE "object"
 CurResp  == RespFrame(cur, CurShape, acc)
 OwnedByCur(k) == owner[k] # <<0, 0>> /\ owner[k][1] = cur
@@ -285,7 +293,7 @@ RespNone ==
   /\ UNCHANGED <<wire, wip>>
 
 RespBegin ==
-  /\ srv = "serving" /\ cur # 0 /\ AllFinished /\ acc # <<>> /\ BeginOK(0)
+  /\ srv = "serving" /\ cur # 0 /\ AllFinished /\ acc # <<>> /\ BeginOK(0) /\ ~BoomIn(sent[cur])
   /\ IF SplitWrites
        THEN /\ wire' = Put(0, 1, CurResp) /\ wip' = [wip EXCEPT ![0] = CurResp]
             /\ step' = St("RespBegin", cur, 0, "-")
@@ -305,7 +313,7 @@ RespEnd ==
    set, `activated` closes, the loop breaks, ServeHTTP closes the websocket (1011, best effort)
    and returns *)
 RespFail(withClose) ==
-  /\ srv = "serving" /\ cur # 0 /\ AllFinished /\ acc # <<>> /\ Idle(0) /\ ctxc
+  /\ srv = "serving" /\ cur # 0 /\ AllFinished /\ acc # <<>> /\ Idle(0) /\ ctxc /\ ~BoomIn(sent[cur])
   /\ act' = [k \in Subs |-> act[k] \/ OwnedByCur(k)]
   /\ ierr' = [k \in Subs |-> ierr[k] \/ OwnedByCur(k)]
   /\ failedf' = cur /\ srv' = "exited"
@@ -313,6 +321,19 @@ RespFail(withClose) ==
   /\ cur' = 0 /\ est' = [i \in Idx |-> "idle"] /\ pend' = [i \in Idx |-> JR!NoResp] /\ acc' = <<>>
   /\ step' = St("RespFail", cur, 0, "error")
   /\ UNCHANGED <<sent, nread, tail, wip, sub, owner, unsubby, gor, natt, ninv, client, cseen, shut, ctxc>>
+
+(* json.Marshal of the response fails: HandleReadWriter returns the error (initialErr, `activated`
+   closes), the loop breaks and ServeHTTP closes the websocket with StatusInternalError and the error
+   text as reason - cut at 125 bytes, which is 2 more than a close frame can carry *)
+RespUnser ==
+  /\ srv = "serving" /\ cur # 0 /\ AllFinished /\ BoomIn(sent[cur]) /\ (WriteMutex => MutexFree)
+  /\ act' = [k \in Subs |-> act[k] \/ OwnedByCur(k)]
+  /\ ierr' = [k \in Subs |-> ierr[k] \/ OwnedByCur(k)]
+  /\ failedf' = cur /\ srv' = "exited" /\ ctxc' = TRUE
+  /\ wire' = IF FixCloseReason \/ ~LongReason(sent[cur]) THEN Put(0, 0, CloseFrame(ClosedIntErr)) ELSE wire
+  /\ cur' = 0 /\ est' = [i \in Idx |-> "idle"] /\ pend' = [i \in Idx |-> JR!NoResp] /\ acc' = <<>>
+  /\ step' = St("RespUnser", cur, 0, "error")
+  /\ UNCHANGED <<sent, nread, tail, wip, sub, owner, unsubby, gor, natt, ninv, client, cseen, shut>>
 
 (* io.Copy(io.Discard, ...) of a bigtail message hits the limit *)
 TailClose ==
@@ -400,7 +421,7 @@ CanSend == client = "open" /\ srv = "serving" /\ ~shut /\ Len(sent) < MaxFrames
 Next ==
   \/ CanSend /\ \E fr \in FrameAlphabet : ClientSend(fr)
   \/ ClientClose \/ ServerShutdown
-  \/ ServerRead \/ RespNone \/ RespBegin \/ RespEnd \/ TailClose
+  \/ ServerRead \/ RespNone \/ RespBegin \/ RespEnd \/ RespUnser \/ TailClose
   \/ \E c \in BOOLEAN : RespFail(c) \/ ServerExit(c)
   \/ \E i \in Idx : Start(i) \/ Finish(i) \/ FinishCancelled(i)
   \/ \E k \in Subs : NoteStart(k) \/ NoteBegin(k) \/ NoteEnd(k) \/ NoteFail(k) \/ Told(k) \/ GorExit(k)
@@ -490,7 +511,7 @@ PNoWriteAfterExit == [][srv = "exited" => wire' = wire]_vars
 PExitFinal        == [][srv = "exited" => srv' = "exited" /\ ctxc']_vars
 (* ... a failed Write is reported to the goroutine (never a silent success elsewhere): checked on the
    real code; in the model "error" results occur only when nothing was put on the wire *)
-PErrorMeansNothingWritten == [][step'.res = "error" /\ step'.a # "RespFail" => wire' = wire]_vars
+PErrorMeansNothingWritten == [][step'.res = "error" /\ step'.a \notin {"RespFail", "RespUnser"} => wire' = wire]_vars
 (* every goroutine is told *)
 PToldEventually == (srv = "exited") ~> (\A k \in Subs : sub[k] # "active" \/ gor[k] = "pending")
 PAllTold        == (srv = "exited") ~> (\A k \in Subs : sub[k] # "active")
@@ -524,6 +545,16 @@ PReadLimit ==
          /\ \A p \in FE : p[1] = f => ninv[p] = 0
     /\ (sent[f].k = "bigtail" /\ srv = "exited" /\ ~shut /\ client = "open") =>
          W[Len(W)].c = CloseFrame(ClosedTooBig)
+(* a connection the server ends because it cannot answer is closed with 1011 - as the code is, only if
+   the error text fits a close frame; PureInternalClose is the promise without that deviation *)
+InternalClose(pure) ==
+  \A f \in 1..nread : (BoomIn(sent[f]) /\ failedf = f) =>
+    /\ RespAt(f) = {} /\ srv = "exited"
+    /\ IF pure \/ FixCloseReason \/ ~LongReason(sent[f])
+         THEN W # <<>> /\ W[Len(W)].c = CloseFrame(ClosedIntErr)
+         ELSE \A i \in DOMAIN W : W[i].c.t # "close"
+PInternalClose    == InternalClose(FALSE)
+PureInternalClose == InternalClose(TRUE)
 PCloseIsLast ==
   \A i \in DOMAIN W : W[i].c.t = "close" => i = Len(W)
 =============================================================================
